@@ -196,14 +196,16 @@ Definition dqueue_peek (v : variant) (d : dqueue) (mx : nat) (dst : bool) : res 
   let st := dq_st d in
   let len := qlen q in
   if len =? 0 then Ok (EErr MissingData, [], d) else
-  let used0 := if qmax q - qoff q <? len then qmax q - qoff q else len in
+  (* an offset at the wrap position counts as 0 *)
+  let qo := if qoff q =? qmax q then 0 else qoff q in
+  let used0 := if qmax q - qo <? len then qmax q - qo else len in
   let off := Nat.min (dcurr st) (dpos st) in
   if len <? off then Ok (EErr MissingData, [], d) else
   (* mpt_message_read(&msg, off, 0): the fragment that is current afterwards *)
   let fl := if off <? used0 then used0 - off else len - off in
   let frag := slice off fl (contents q) in
   let st0 := mkd (dcode st) (dpos8 st) (dcurr st - off) (dpos st - off) (dlen st) (dmsg st) in
-  let '(r, st1, frag') := dec_call_res v st0 frag [fl] [(qoff q + off) mod 16] true in
+  let '(r, st1, frag') := dec_call_res v st0 frag [fl] [(qo + off) mod 16] true in
   do q' <- (match qset q off frag' with Ok x => Ok x | Err _ => Ok q | Fault => Fault end);
   let pos1 := dpos st1 in
   let st2 := mkd (dcode st1) (dpos8 st1) (dcurr st1 + off) (pos1 + off) (dlen st1) (dmsg st1) in
